@@ -115,9 +115,12 @@ NoOne == <<"none", 0>>
 OutCbOps(s) == IF OutCb # 0 /\ s.ocbreg THEN <<<<"cin", OutCb>>>> ELSE <<>>
 
 \* ------------------------------------------------------------------ handle_done(i), under the lock
+\* "that was the last input": nothing is left in the pending map.  Seeded model bug dup_counter (change C14-r4m2): a
+\* counter initialised with the number of ARGUMENTS and decremented once per distinct input - never 0 with a repeated input
+LastGone(rest) == IF Bug = "dup_counter" THEN Len(cfgP) - (Cardinality(Used) - Cardinality(rest)) = 0 ELSE rest = {}
 Decides(k, rest) ==
   IF Bug = "or_last_only" THEN rest = {}
-  ELSE IF Op = "or" THEN (rest = {} \/ k = 1) ELSE (k \in {2, 3, 4} \/ rest = {})
+  ELSE IF Op = "or" THEN (LastGone(rest) \/ k = 1) ELSE (k \in {2, 3, 4} \/ LastGone(rest))
 
 HandleDone(s, t, i, more) ==
   IF s.done THEN [s EXCEPT !.todo[t] = more]
